@@ -648,6 +648,11 @@ def life_case(run, i, c):
         op = {"op": h["op"], "a": h["a"]}
         if h["op"] == "new":
             op["t"] = h["arg"]["t"] - 1
+            lim = h["arg"].get("lim") or {}
+            if lim.get("mf", 1000000) < 1000000:
+                op["mf"] = lim["mf"]
+            if lim.get("mi", 1000000) < 1000000:
+                op["mi"] = lim["mi"]
         elif h["op"] == "add":
             op["az"] = h["arg"]
             op["mode"] = ["", "block", "authorizer", "text"][(i + len(script)) % 4]
@@ -665,10 +670,16 @@ def life_text(c):
         elif h["op"] == "query":
             out.append("query(" + rule_text(h["arg"]) + ")")
         elif h["op"] == "new":
-            out.append("new#%d(token %d)" % (h["a"], h["arg"]["t"]))
+            lim = h["arg"].get("lim") or {}
+            out.append("new#%d(token %d%s)" % (h["a"], h["arg"]["t"], "".join(", %s=%d" % (k, lim[k]) for k in ("mf", "mi") if lim.get(k, 1000000) < 1000000)))
         else:
             out.append("%s#%d" % (h["op"], h["a"]))
     return " ; ".join(out)
+
+
+def vclass(v):
+    """the limit sentinels are refusals of the evaluation (class `failed`)"""
+    return "failed" if v in ("maxiter", "maxfacts", "timeout") else v
 
 
 def life_judge(c, o):
@@ -681,7 +692,7 @@ def life_judge(c, o):
         e = h["exp"]
         if "v" in e:
             exp = {CLASSMAP[x] for x in e["v"]}
-            if ob.get("v") not in exp:
+            if vclass(ob.get("v")) not in exp:
                 bad.append("step %d %s#%d = %s, specification says %s" % (k, h["op"], h["a"], ob.get("v"), sorted(exp)))
         elif "qerr" in e:
             if ob.get("v") in ("ok", None):
@@ -763,7 +774,9 @@ def c13(run):
     t = "thorough" if run.tier == "thorough" else "quick"
     cfgs = [("Lifecycle_reset_" + t, "L1 ResetClean + export of all round histories", {}),
             ("Lifecycle_loadreset_" + t, "L1 ResetClean + export of round histories whose content arrives through LoadPolicies", {}),
-            ("Lifecycle_neg_base", "negative model: base world overwritten after Authorize", {"expect_violation": True})]
+            ("Lifecycle_limreset_" + t, "L1 ResetClean (limits included) + export of the round histories of authorizers created with maxFacts 1..3 in which an evaluation fails", {}),
+            ("Lifecycle_neg_base", "negative model: base world overwritten after Authorize", {"expect_violation": True}),
+            ("Lifecycle_neg_limits", "negative model: Reset builds a world with the default limits", {"expect_violation": True})]
     if run.tier == "thorough":
         cfgs.insert(1, ("Lifecycle_reset_sim", "L1 ResetClean on simulated 3-round histories + export", {"simulate": 400, "depth": 30, "seed": run.seed, "workers": 8}))
     life_check(run, cfgs)
